@@ -14,6 +14,10 @@ import DarsiaProofs.ImageArr
 namespace Darsia.C02
 open Darsia Darsia.Im
 
+/-- a 1×1 geometry for the concrete witnesses / non-vacuity examples about time bookkeeping -/
+def exCSa : CS := ⟨.d2, [1, 1], [1, 1], [0, 1]⟩
+
+
 /-- ONE spatial extraction by ANY tuple of Python slices (open-ended, negative, beyond the image —
 all normalised like `slice.indices`) with a non-empty result: shape, data block, placement, voxel
 size and all time / payload metadata of the sub-image. -/
@@ -62,6 +66,22 @@ offset — one extraction with the composed offsets, not merely "some" offset. -
 theorem nest_offsets (root : Img) (off0 : List Nat) (hroot : Placed root root off0) (steps : List Step) (im : Img)
     (off : List Nat) (h : root.runOff off0 steps = some (im, off)) : Placed root im off ∧ root.runOk steps = some im :=
   placed_runOff root steps root im off0 off hroot h
+
+/-- PROGRESS: the conditional theorems above (`sub_placed`, `nest`, `nest_offsets`, `extract_data_eq`) are not vacuous on
+in-range programs — under the placement invariant a step does NOT raise when: a subregion is given one slice per spatial axis
+(any slices); a VoxelArray / CoordinateArray ROI has at least one point; `time_slice(k)` is applied to a series with
+`-T ≤ k < T`; `time_interval` is applied to a series. And the result of a subregion is non-empty exactly when every
+normalised range is (`start < stop`), which is the remaining condition of `runOk`. -/
+theorem in_range_steps_succeed (root im : Img) (off : List Nat) (hP : Placed root im off) (st : Step)
+    (hg : match st with
+      | .sub sls => sls.length = im.cs.dim.toNat
+      | .subVox pts => pts ≠ []
+      | .subCoord pts => pts ≠ []
+      | .tslice k => im.series = true ∧ -(im.slabs.length : Int) ≤ k ∧ k < im.slabs.length
+      | .tinterval _ => im.series = true) :
+    (∃ im', im.step st = .ok im') ∧
+    ∀ sls im', im.subSlices sls = .ok im' → (im'.nonempty = true ↔ ∀ s ∈ List.zipWith sliceIdx im.cs.shape sls, s.1 < s.2) :=
+  ⟨step_succeeds root im off hP st hg, fun sls im' h => sub_nonempty_iff im im' sls h⟩
 
 /-- … and freshly constructed images satisfy the hypothesis of `nest` (offset zero). -/
 theorem root_placed (rid : Nat) (cs : CS) (series scalar : Bool) (T : Nat) (time : Option (List (Option Rat)))
@@ -116,12 +136,12 @@ theorem stack_slice_rel (cs : CS) (scalar : Bool) (xs : List (Slab × Rat)) (hn 
     ∃ s, stack (xs.map (timed cs scalar)) = .ok s ∧ s.timeSlice (i : Int) = .ok (timed cs scalar xs[i]) :=
   stack_slice_rel' cs scalar xs hn i hi
 
-/-- HOW THE STACK SENTENCE IS READ. "Stacking single-time images into a series and slicing it again returns the
-originals with their dates and relative times" = data and DATES are returned exactly; the RELATIVE time of slice `i` is
-relative to the reference date of the SERIES, which is the reference date of the first image. For dated images with
-ARBITRARY stored relative times (incl. times in another unit, "both") and ARBITRARY reference dates, `stack` (no offset)
-derives the times from the dates: slice `i` has time `date_i − ref_0` and reference `ref_0`. (The stored times of dated
-images are NOT kept by `stack`; they are kept by `append(…, offset)`, see `append_offset_keeps_times`.) -/
+/-- WHAT `stack` DOES WITH DATED IMAGES (the property's stack sentence, read literally — "returns the originals with their
+dates and relative times" — is FALSE for them, see the known findings `stack_rereferences_witness` /
+`stack_discards_stored_times_witness`): data and DATES are returned exactly; the relative time of slice `i` is RE-REFERENCED
+to the reference date of the first image, which becomes the reference date of the series: for dated images with ARBITRARY
+stored relative times (incl. "both") and ARBITRARY reference dates slice `i` has time `date_i − ref_0` and reference `ref_0`.
+(Stored times of dated images are kept by `append(…, offset)`, see `append_offset_keeps_times`.) -/
 theorem stack_slice_dated (cs : CS) (scalar : Bool) (x0 : Slab × Int × Rat × Int) (rest : List (Slab × Int × Rat × Int))
     (hr : rest ≠ []) (hsorted : List.Pairwise (· < ·) ((x0 :: rest).map (·.2.1))) (i : Nat) (hi : i < (x0 :: rest).length) :
     ∃ s, stack ((x0 :: rest).map (datedG cs scalar)) = .ok s ∧
@@ -146,6 +166,22 @@ theorem stack_slice_shared_reference (cs : CS) (scalar : Bool) (r : Int) (x0 : S
   unfold datedG
   rw [h0, hi1, hi2]
 
+/-- KNOWN FINDING (negative, concrete witness): read LITERALLY the stack sentence fails for dated images with default
+reference dates — the original image 1 (date 160 s) has relative time 0 and reference date = its own date, but slice 1 of the
+stacked series has relative time 60 and the reference date of image 0. -/
+theorem stack_rereferences_witness :
+    ((stack [dated exCSa true (⟨0, 0, []⟩, 100000000), dated exCSa true (⟨1, 0, []⟩, 160000000)]).toOption.bind
+        fun s => (s.timeSlice 1).toOption).map (fun x => (x.time, x.ref)) = some ([some 60], some 100000000) ∧
+    ((dated exCSa true (⟨1, 0, []⟩, 160000000)).time, (dated exCSa true (⟨1, 0, []⟩, 160000000)).ref) = ([some 0], some 160000000) := by
+  decide +kernel
+
+/-- KNOWN FINDING (negative, concrete witness): dated images that also carry stored relative times (here 7 and 9) lose them in
+`stack`: slice 1 has time 60 = date difference, not the stored 9. -/
+theorem stack_discards_stored_times_witness :
+    ((stack [datedG exCSa true (⟨0, 0, []⟩, 100000000, 7, 100000000), datedG exCSa true (⟨1, 0, []⟩, 160000000, 9, 160000000)]).toOption.bind
+        fun s => (s.timeSlice 1).toOption).map (fun x => x.time) = some [some 60] := by
+  decide +kernel
+
 /-- special case: every image carries only its date (reference = own date, time 0, what the constructor gives by default):
 slice `i` has the date of image `i` and the time `date_i − date_0`. -/
 theorem stack_slice_dates (cs : CS) (scalar : Bool) (x0 : Slab × Int) (rest : List (Slab × Int)) (hr : rest ≠ [])
@@ -154,8 +190,6 @@ theorem stack_slice_dates (cs : CS) (scalar : Bool) (x0 : Slab × Int) (rest : L
       s.timeSlice (i : Int) = .ok ⟨cs, false, scalar, [((x0 :: rest)[i]).1],
         [some (secondsBetween ((x0 :: rest)[i]).2 x0.2)], [some ((x0 :: rest)[i]).2], some x0.2⟩ :=
   stack_slice_dates' cs scalar x0 rest hr hsorted i hi
-
-def exCSa : CS := ⟨.d2, [1, 1], [1, 1], [0, 1]⟩
 
 /-- append WITH an offset (0 included — `some 0` is an offset, not "no offset") keeps the stored
 relative times of both images, those of the appended image shifted by the offset, whether or not the
